@@ -114,8 +114,8 @@ func engineCrash(x *X) {
 	done := l.done
 	clean := !x.stop && (len(x.out.Viol) == 0 || x.allResynced)
 	// the crash point after which the history goes on (second life): chosen before any judging, its tree kept pristine
-	var second *crashSnap
-	life2 := filepath.Join(x.root, "life2")
+	var seconds []crashSnap
+	var life2 []string
 	if clean && p.Knobs.Lives > 1 && len(l.snaps) > 0 {
 		var cand []int
 		for i, s := range l.snaps {
@@ -123,10 +123,14 @@ func engineCrash(x *X) {
 				cand = append(cand, i)
 			}
 		}
-		if len(cand) > 0 {
-			s := l.snaps[cand[int(splitmix(p.Seed^0x2d11fe)%uint64(len(cand)))]]
-			if copyTree(s.dir, life2) == nil {
-				second = &s
+		for n := 0; n < 2 && len(cand) > 0; n++ {
+			ci := int(splitmix(p.Seed^0x2d11fe+uint64(n)*0x9e37) % uint64(len(cand)))
+			s := l.snaps[cand[ci]]
+			cand = append(cand[:ci], cand[ci+1:]...)
+			dir := filepath.Join(x.root, fmt.Sprintf("life2-%d", n))
+			if copyTree(s.dir, dir) == nil {
+				seconds = append(seconds, s)
+				life2 = append(life2, dir)
 			}
 		}
 	}
@@ -144,10 +148,12 @@ func engineCrash(x *X) {
 	}
 	l.drop()
 	nsnaps := len(l.snaps)
-	if second != nil && (len(x.out.Viol) == 0 || x.allResynced) {
-		nsnaps += x.secondLife(w, *second, life2, l.before[second.opIdx], l.after[second.opIdx], ops)
+	for i, second := range seconds {
+		if len(x.out.Viol) == 0 || x.allResynced {
+			nsnaps += x.secondLife(w, second, life2[i], l.before[second.opIdx], l.after[second.opIdx], ops, i)
+		}
+		_ = os.RemoveAll(life2[i])
 	}
-	_ = os.RemoveAll(life2)
 	x.out.NonTrivial = x.out.CrashPoints > 3
 	x.mix(uint64(nsnaps))
 	var ol []string
@@ -163,7 +169,7 @@ func engineCrash(x *X) {
 // secondLife: the process died at crash point s; a new server is started on that tree, the rest of the history is
 // executed against it (judged operation by operation against the model the recovered tree corresponds to), and every
 // mutating filesystem operation of that second life is a crash point again (crash, recovery, work, crash, recovery).
-func (x *X) secondLife(orig *World, s crashSnap, root string, mB, mA *Model, ops []Op) int {
+func (x *X) secondLife(orig *World, s crashSnap, root string, mB, mA *Model, ops []Op, nth int) int {
 	rest := ops[s.opIdx+1:]
 	if len(rest) == 0 {
 		return 0
@@ -295,7 +301,7 @@ func (x *X) secondLife(orig *World, s crashSnap, root string, mB, mA *Model, ops
 		}
 	}
 	nv := len(x.out.Viol)
-	l := x.runLife(rw, root, rest, 200, "snap2")
+	l := x.runLife(rw, root, rest, 200, fmt.Sprintf("snap2%c", 'a'+nth))
 	if traceOn {
 		for _, repo := range orig.allRepoNames() {
 			b, _ := os.ReadFile(filepath.Join(root, repo, "index.json"))
